@@ -137,7 +137,7 @@ fn direct_segs(tier: Tier) -> Vec<(String, DirectSeg, u64)> {
     v
 }
 
-/// representatives on 6 slots: all 75 involutions, all 40 3-cycles, the six 4-cycles on {0,1,2,3},
+/// representatives on 6 slots: every second of the 75 involutions and 40 3-cycles, the six 4-cycles on {0,1,2,3},
 /// and a 5-cycle and a 6-cycle with their inverses
 fn reps6() -> Vec<P> {
     let id: P = (0..6).collect();
@@ -181,6 +181,8 @@ fn reps6() -> Vec<P> {
             false
         })
         .collect();
+    // thin the 115 involutions / 3-cycles to every second one (in lexicographic order): 58 + 6 four-cycles + 4 long cycles
+    let mut out: Vec<P> = out.into_iter().enumerate().filter(|(i, p)| i % 2 == 0 || (p[4] == 4 && p[5] == 5 && cycle_type(p) == vec![4])).map(|(_, p)| p).collect();
     out.push(vec![1, 2, 3, 4, 0, 5]);
     out.push(vec![4, 0, 1, 2, 3, 5]);
     out.push(vec![1, 2, 3, 4, 5, 0]);
@@ -194,12 +196,30 @@ fn eg_segs() -> Vec<(String, &'static str, usize, bool)> {
         ("egraph-t-gens<=3".into(), "t", 3, false),
         ("egraph-q-gens<=3".into(), "q", 4, false),
         ("egraph-t-gens<=3+redundancy".into(), "t", 3, true),
+        // the leaf's class is also united with another term of the same slots (every position in the order, both
+        // orientations): the leaf's first handle then belongs to a class that was merged away before / after the symmetries
+        ("egraph-f-gens<=3+merge".into(), "f+m", 2, false),
+        ("egraph-t-gens<=3+merge".into(), "t+m", 3, false),
         ("egraph-q-gens<=2+redundancy".into(), "q", 4, true),
     ]
 }
 
+thread_local! { static QUICK: std::cell::Cell<bool> = std::cell::Cell::new(false); }
+
+/// generator sets of size <= 3; on the 4-slot leaf <= 2 in the quick tier and together with a redundancy union
+fn eg_k(n: usize, red: bool) -> u64 {
+    if n == 4 && (red || QUICK.with(|q| q.get())) {
+        2
+    } else {
+        3
+    }
+}
+
 fn eg_count(n: usize, red: bool) -> u64 {
     let m = fact(n) as u64;
+    if true {
+        return subset_count(m, eg_k(n, red));
+    }
     if red && n == 4 {
         subset_count(m, 2)
     } else {
@@ -370,9 +390,14 @@ impl GroupProp {
     }
 
     fn eg_ops(&self, leaf_op: &'static str, n: usize, red: bool, idx: u64) -> Vec<Op> {
+        let (leaf_op, merge): (&'static str, bool) = match leaf_op {
+            "f+m" => ("f", true),
+            "t+m" => ("t", true),
+            o => (o, false),
+        };
         let perms = all_perms(n);
         let m = perms.len() as u64;
-        let k = if red && n == 4 { 2 } else { 3 };
+        let k = eg_k(n, red);
         let gi = subset_unrank(m, k, idx);
         let names: Vec<Name> = (0..n as Name).collect();
         let l = leaf(leaf_op, &names);
@@ -391,6 +416,10 @@ impl GroupProp {
             pn[n - 1] = n as Name;
             ops.push(Op::Union(l.clone(), leaf(leaf_op, &pn)));
         }
+        if merge {
+            let other = if n == 2 { leaf("g", &[0, 1]) } else { node2("b", leaf("f", &[0, 1]), leaf("h", &[2])) };
+            ops.push(Op::Union(l.clone(), other));
+        }
         ops
     }
 }
@@ -400,6 +429,7 @@ impl Prop for GroupProp {
         "C10"
     }
     fn segments(&self, tier: Tier, _cfg: &str) -> Vec<Seg> {
+        QUICK.with(|q| q.set(tier == Tier::Quick));
         let mut v: Vec<Seg> = direct_segs(tier)
             .into_iter()
             .map(|(name, _, count)| Seg { name, count, what: "one index = one generator set; Group::new on three slot orderings; contains for every permutation, all_perms, count, orbit of every slot, generators, add_set for every extra set".into() })
@@ -419,6 +449,7 @@ impl Prop for GroupProp {
         vec!["the group structure is reached through the add-only `verif` hook (VerifGroup), which forwards to Group<Perm> unchanged".into(), "generator sets on 5 and 6 slots are enumerated completely up to the stated set size instead of drawn at random".into()]
     }
     fn describe(&self, tier: Tier, _cfg: &str, seg: usize, idx: u64) -> Value {
+        QUICK.with(|q| q.set(tier == Tier::Quick));
         let ds = direct_segs(tier);
         if seg < ds.len() {
             let (name, s, _) = &ds[seg];
@@ -438,6 +469,7 @@ impl Prop for GroupProp {
         }
     }
     fn exec(&self, tier: Tier, _cfg: &str, seg: usize, idx: u64) -> Exec {
+        QUICK.with(|q| q.set(tier == Tier::Quick));
         let mut out = Exec::default();
         let ds = direct_segs(tier);
         if seg < ds.len() {
